@@ -142,22 +142,59 @@ def handleSsnReset (e : Ep) (p : Bytes) : Ep :=
       { e with peerReconfigSn := reqSn, rx := { e.rx with pl := { e.rx.pl with streams := ss } } }
   | _ => e
 
-/-- `handle_reconfig`: walk the parameters -/
-def handleReconfig : Nat → Ep → Bytes → Ep
-  | 0, e, _ => e
-  | fuel + 1, e, buf =>
+/-- `handle_reconfig`'s parameter walk: (type, value) of every parameter in order. The value is the
+declared length minus the 4 header bytes; the padding to a multiple of 4 is skipped *after* it (it is
+not part of the value). The walk stops at a parameter whose length is < 4 or exceeds what is left. -/
+def rcParams : Nat → Bytes → List (Nat × Bytes)
+  | 0, _ => []
+  | fuel + 1, buf =>
     match buf with
     | t0 :: t1 :: l0 :: l1 :: rest =>
       let ty := (rd16 t0 t1).toNat
       let len := (rd16 l0 l1).toNat
-      if len < 4 || rest.length < len - 4 then e
+      if len < 4 || rest.length < len - 4 then []
       else
         let v := rest.take (len - 4)
         let rest1 := rest.drop (len - 4)
         let p := pad4 len
         let rest2 := if rest1.length ≥ p then rest1.drop p else rest1
-        handleReconfig fuel (if ty == 13 then handleSsnReset e v else e) rest2
-    | _ => e
+        (ty, v) :: rcParams fuel rest2
+    | _ => []
+
+/-- `handle_reconfig`: every Outgoing SSN Reset Request parameter (type 13) is handled, in order -/
+def handleReconfig (fuel : Nat) (e : Ep) (buf : Bytes) : Ep :=
+  (rcParams fuel buf).foldl (fun e p => if p.1 == 13 then handleSsnReset e p.2 else e) e
+
+/-- what one RE-CONFIG chunk makes `handle_reconfig` do on the sending side too: per Outgoing SSN
+Reset Request either "performed" (the request's serial number and the streams it names — the
+channels with these ids restart their outgoing SSN at 0, the inbound streams with these ids are
+forgotten; an empty list means every stream) or "duplicate" (only answered again) -/
+inductive RcEv where
+  | performed (sn : UInt32) (streams : List UInt16)
+  | duplicate (sn : UInt32)
+deriving DecidableEq, Repr, Inhabited
+
+def rcRun : UInt32 → List (Nat × Bytes) → UInt32 × List RcEv
+  | peerSn, [] => (peerSn, [])
+  | peerSn, p :: rest =>
+    if p.1 == 13 then
+      match p.2 with
+      | q0 :: q1 :: q2 :: q3 :: _ :: _ :: _ :: _ :: _ :: _ :: _ :: _ :: ids =>
+        let sn := rd32 q0 q1 q2 q3
+        if sn ≤ peerSn && peerSn != 0xFFFFFFFF then
+          let r := rcRun peerSn rest
+          (r.1, RcEv.duplicate sn :: r.2)
+        else
+          let r := rcRun sn rest
+          (r.1, RcEv.performed sn (parseU16s ids) :: r.2)
+      | _ => rcRun peerSn rest
+    else rcRun peerSn rest
+
+/-- `send_reconfig_ssn_reset`'s parameter: type 13, length 16 + 2·#streams, the three serial numbers,
+the stream ids, zero padding to a multiple of 4 -/
+def encSsnReset (reqSn respSn nextTsn : UInt32) (ids : List UInt16) : Bytes :=
+  be16 13 ++ be16 (UInt16.ofNat (16 + 2 * ids.length)) ++ (be32 reqSn ++ be32 respSn ++ be32 nextTsn ++ (ids.map be16).flatten) ++
+    List.replicate (pad4 (16 + 2 * ids.length)) 0
 
 /-- the SACK part of a `transmit()` call -/
 def epTransmit (e : Ep) : Ep :=
